@@ -179,8 +179,16 @@ class MetadataManager:
                         f"but found: {current.last_updated_ms}"
                     )
 
-                # PHASE 2: Prepare new version
-                new_metadata.last_updated_ms = int(datetime.now().timestamp() * 1000)
+                # PHASE 2: Prepare new version. last_updated_ms is part of the OCC
+                # version stamp, so it must differ from the version being replaced:
+                # on a coarse or frozen clock two commits can land in the same
+                # millisecond, and a metadata-only commit (expire / delete snapshot)
+                # leaves current_snapshot_id unchanged - a committer holding the
+                # stale base would then pass validation and silently undo it.
+                now_ms = int(datetime.now().timestamp() * 1000)
+                if current and now_ms <= current.last_updated_ms:
+                    now_ms = current.last_updated_ms + 1
+                new_metadata.last_updated_ms = now_ms
 
                 # Read current version (and, on CAS backends, the hint's ETag so
                 # the commit point below can be a true compare-and-swap).
